@@ -37,6 +37,7 @@ func runC02(p *core.Program, r *core.Report) {
 	r.Rule("C02.pairs", "Write~Read of every value type (and WriteValue~ReadValue) agree on the layout on every joint path", 20)
 	r.Rule("C02.fields", "each written field is stored by the reader into the same field", 18)
 	r.Rule("C02.countlink", "container readers loop over the count the writer emitted", 18)
+	r.Rule("C02.fresh", "every value the factory hands out is freshly allocated (no shared instances that a later Read overwrites)", 20)
 	r.Rule("C02.order", "containers are rebuilt in the order written: reader appends at the tail, writer enumerates from the head", 3)
 	for _, sfx := range []struct{ s, doc string }{{"insert", "new key: one bucket insertion, one tail link, one size increment"}, {"update", "existing key: size/buckets unchanged"},
 		{"bound", "eviction only with a maximum set"}, {"growth", "rehash iff count >= threshold; table/index recomputed"}, {"remove", "remove unlinks and counts once"},
@@ -54,6 +55,7 @@ func runC02(p *core.Program, r *core.Report) {
 	runPairs(p, x, r, pairs, pairRules{"C02.pairs", "C02.fields", "C02.countlink"}, tierDepth(r))
 	c02Order(p, r)
 	c02Backing(p, r)
+	checkFactoryFresh(p, r, "C02.fresh", "lang/value", "CreateValue")
 }
 
 // c02Order: MapValue/IntMapValue.Read insert with the plain Put of the backing linked map (tail
